@@ -320,7 +320,8 @@ from pyvc.h5model import new_group, new_dataset, new_attrs   # noqa: E402
 from pyvc.models import epoch, str_frac, pyround   # noqa: E402
 from pyvc.sym import SStr, F   # noqa: E402
 
-PATHS = [pathlib.Path("/in/a.rtdc"), pathlib.Path("/in/b.rtdc"), pathlib.Path("/in/c.rtdc")]
+# the names are deliberately not in alphabetical order: ties must keep the *given* order
+PATHS = [pathlib.Path("/in/m.rtdc"), pathlib.Path("/in/d.rtdc"), pathlib.Path("/in/k.rtdc")]
 INNATE = {
     "a": ["area_um", "deform", "fl1_max", "fl2_max", "frame", "image", "index", "index_online", "time"],
     "b": ["area_um", "deform", "frame", "image", "index", "index_online", "time"],
@@ -841,7 +842,8 @@ def _replay_join(unit_name, inp):
                 tm = hmap[times[i][:8]] + (fmap[times[i][8:]] if len(times[i]) > 8 else "")
                 ri = int(inp.get("runindex_" + t, 1))
                 n = max(1, min(int(inp.get("N_" + t, 3)), 4))
-                p = td / f"{t}.rtdc"
+                # file names deliberately not in alphabetical order (ties keep the *given* order)
+                p = td / f"{ {'a': 'm', 'b': 'd', 'c': 'k'}[t] }_{t}.rtdc"
                 feats = INNATE[t] if len(tags) == 3 else INNATE["b"]
                 datas[t] = _write_input(p, t, dmap[dates[i]], tm, ri, n, feats, seed=i + 1)
                 meta[t] = (dmap[dates[i]], tm, ri, n)
